@@ -27,6 +27,12 @@ CHECKS = {
             'generated chains x speed ratios x lengths (incl. unbounded sources) x owned schedules; bounds are observed to be attained'),
     'C16': ('exploration', T_SIM + 'differential sync vs async on identical inputs, both also against the sequential reference', SIM_NOTE,
             'fifo_stream/async_fifo_stream and the four parmap variants on identical generated inputs, durations, preprocessor failures and flags'),
+    'C02': ('exploration', T_SIM + 'reference evaluator of the generated servlet tree; legality rules for TimeoutError/ServerBacklogFull; generated object-identity allocator', SIM_NOTE,
+            'generated servlet trees x request histories (failures, fail-fast errors, short timeouts) x concurrent callers and streams x owned schedules'),
+    'C06': ('exploration', T_SIM + 'invariant backlog<=capacity at every scheduling step; exact rejection/waiting rules in virtual time; idle backlog == 0', SIM_NOTE,
+            'generated caller scripts (backpressure on/off, short/long timeouts, failures, abandoned streams) x capacity 1-4 x owned schedules'),
+    'C07': ('exploration', T_SIM + 'abandoned call = TimeoutError at/after deadline or own reference result; probe requests answered correctly afterwards; gather thread alive; clean exit', SIM_NOTE,
+            'timeouts equal to / bracketing the service time, early-closed streams, bounded forced clock advances and line-granular preemption in _server.py'),
     'C03': ('exploration', 'property-based testing (Hypothesis): type-directed generated operator programs and inputs run under the deterministic scheduler (default schedule + short tapes); oracle: independent lazy reference interpreter (outputs, terminal exception, peek transcript), multiset for shuffle, pull counters for laziness', SIM_NOTE,
             'generated programs (0-6 operators) x inputs x consumption modes against a reference interpreter; laziness via an instrumented source'),
     'C19': ('exploration', T_SIM + 'validity predicates over the (virtual time, batch) log: partition, sizes, exact deadline rule with stall budget 0', SIM_NOTE,
